@@ -4,6 +4,10 @@ go 1.21
 
 require github.com/herohde/morlock v0.0.0
 
-require github.com/seekerror/stdlib v0.0.0-20231216224128-fab4c1e73ebe // indirect
+require (
+	github.com/golang/glog v1.2.0 // indirect
+	github.com/seekerror/logw v0.8.1 // indirect
+	github.com/seekerror/stdlib v0.0.0-20231216224128-fab4c1e73ebe // indirect
+)
 
 replace github.com/herohde/morlock => /repo
